@@ -47,3 +47,4 @@ CONSTANTS
  BadFrames = {"connect"}
  SendWhileDisc = FALSE
  PeerWhileDisc = TRUE
+ LateFrames = FALSE
